@@ -217,7 +217,10 @@ pub fn s_cross(thorough: bool) -> Space {
 
 pub fn cell_lengths(cap: usize, thorough: bool) -> Vec<usize> {
     let mut l = if thorough {
-        vec![0, 1, 2, 3, cap / 2, cap.saturating_sub(2), cap.saturating_sub(1), cap]
+        let mut l = vec![0, 1, 2, 3, cap / 2, cap.saturating_sub(2), cap.saturating_sub(1), cap];
+        // interior lengths: fractions of the capacity and the neighbourhoods of 8, 16, 64 and 256
+        l.extend([cap / 4, cap / 3, 2 * cap / 3, 3 * cap / 4, 7, 8, 9, 15, 16, 17, 63, 64, 65, 255, 256, 257].iter().filter(|&&x| x <= cap));
+        l
     } else {
         vec![0, 1, cap.saturating_sub(1), cap]
     };
@@ -247,7 +250,7 @@ pub fn s_cell(thorough: bool) -> Space {
         name: "S_cell".into(),
         describe: format!(
             "all 40x4x8x3 = 3840 forced cells x lengths {}",
-            if thorough { "{0,1,2,3,cap/2,cap-2,cap-1,cap}" } else { "{0,1,cap-1,cap}" }
+            if thorough { "{0,1,2,3,cap/4,cap/3,cap/2,2cap/3,3cap/4,cap-2,cap-1,cap} and {7,8,9,15,16,17,63,64,65,255,256,257} where they fit" } else { "{0,1,cap-1,cap}" }
         ),
         cases,
         exhaustive: true,
